@@ -60,19 +60,30 @@ def export(image_or_path, dest=None):
         return run(os.path.join(d, "dest"))
 
 
-def full_run(src, cpu_s=20.0, ls_paths=("",)):
-    """Open + ls at given paths + export, guarded.  Returns dict with status/exception/outputs."""
-    res = {"status": "ok", "ls": {}, "files": {}, "reported": [], "stdout": "", "exc": None}
+def full_run(src, cpu_s=20.0, ls_paths=("",), again=False):
+    """Open + ls at given paths + export, guarded.  Returns dict with status/exception/outputs.
+    again=True: the export runs on an image OBJECT and is repeated on that same object; res["again"] describes the
+    difference when the second run does not write and report what the first did (an export is an export)."""
+    res = {"status": "ok", "ls": {}, "files": {}, "reported": [], "stdout": "", "exc": None, "again": None}
 
     def go():
         img = open_image(src) if not isinstance(src, str) else src
         for p in ls_paths:
             res["ls"][p] = ls(img, p)
-        if isinstance(src, str):
+        if again:
+            obj = open_image(src)
+            out, files, reported = export(obj)
+        elif isinstance(src, str):
             out, files, reported = export(src)
         else:
             out, files, reported = export(open_image(src))
         res["stdout"], res["files"], res["reported"] = out, files, reported
+        if again:
+            out2, files2, reported2 = export(obj)
+            if files2 != files or sorted(reported2) != sorted(reported):
+                diff = sorted(set(files) ^ set(files2)) or [p for p in files if files2.get(p) != files[p]]
+                res["again"] = {"paths": diff[:4], "first": len(files), "second": len(files2),
+                                "sizes": [(p, len(files[p]), len(files2.get(p, b""))) for p in diff[:2] if p in files]}
 
     st, val = guarded(go, cpu_s)
     if st == "hang":
